@@ -41,7 +41,10 @@ def kernel_text(klen):
         else:
             d = (i - 8 - len(free)) % 32
             lines.append(f"fadd d{d}, d{d}, d{d}")
-    return "\n".join(lines) + "\n"
+    # non-instruction lines are kernel entries too (label, comment, directive): every INSTRUCTION must still be a search root
+    lines[0:0] = [".L1:"]
+    lines[20:20] = ["// a comment line", ".p2align 4"]
+    return "\n".join(lines[:klen]) + "\n"
 
 import random, time
 _orig_extend = KernelDG._extend_path
